@@ -29,6 +29,18 @@
 (* the graph is a chain of function applications.  Part partitions the     *)
 (* expanded strings by first code point (several TLC runs, one graph).     *)
 (*                                                                         *)
+(* URI family ("uri"): every string <= UriLen over UriAlpha ('%', hex       *)
+(* digits of both cases, a non-hex letter, space) is an initial state on   *)
+(* which only encode-for-uri / iri-to-uri / escape-html-uri act: escaping  *)
+(* is defined PER CHARACTER (no look-ahead: '%' followed by two hex digits *)
+(* is still '%25' for encode-for-uri and still '%' for the other two).     *)
+(* Node-set family ("doc"): the state is a context element x with children *)
+(* named b, c, d (text = name + position) and an attribute k; the XPath    *)
+(* 1.0 string functions are called with RELATIVE node-set paths b c d . @k *)
+(* as arguments: each argument is converted with string(), i.e. the        *)
+(* string-value of the FIRST node in document order (XPath 1.0 sec. 4.2),  *)
+(* and every argument is evaluated with the context node of the call.      *)
+(*                                                                         *)
 (* Numeric arguments are tokens (the canonical xs:double lexical form);    *)
 (* NumVal gives the value in QUARTERS, or an IEEE special.                 *)
 (*                                                                         *)
@@ -46,7 +58,10 @@ CONSTANTS MaxLen,     \* strings up to this length are states that are expanded
           GridName,   \* "small" | "full"   numeric argument grid
           Sweep,      \* BOOLEAN: every printable ASCII character, TAB, NL, CR as 1-char strings
           Part,       \* only strings whose first code point (0 for "") is in Part are expanded
-          Acts        \* action families: subset of {"fn1","fn2","translate","substring","concatx","rejoin","cps"}
+          UriAlpha,   \* code points of the URI-escaping family: '%', hex digits, non-hex characters
+          UriLen,     \* ... strings up to this length ('%20', '%4G', 'a%2F'); only the 3 escaping functions apply
+          DocLen,     \* node-set argument family: context element with up to DocLen children named b, c, d
+          Acts        \* action families: subset of {"fn1","fn2","translate","substring","concatx","rejoin","cps","uri","doc"}
 
 VARIABLE cur
 vars == <<cur>>
@@ -235,12 +250,43 @@ Expandable(v) ==
   \/ v.t = "str" /\ Len(v.s) <= MaxLen /\ InPart(v.s)
        /\ (Len(v.s) <= 1 \/ \A i \in 1..Len(v.s) : v.s[i] \in Core)
 
+(* URI escaping family *)
+UriF == {"encode-for-uri", "iri-to-uri", "escape-html-uri"}
+UriExpandable(v) == "uri" \in Acts /\ 0 \in Part /\ v.t = "str" /\ Len(v.s) <= UriLen
+                      /\ \A i \in 1..Len(v.s) : v.s[i] \in UriAlpha
+
+(* node-set argument family (XPath 1.0): <x k="k0"><b>b1</b><c>c2</c><b>b3</b></x> is kids = <<"b","c","b">> *)
+DocNames == {"b", "c", "d"}
+ArgPaths == {"b", "c", "d", ".", "@k"}
+NameCp(n) == CASE n = "b" -> 98 [] n = "c" -> 99 [] n = "d" -> 100
+Doc(k) == [t |-> "doc", kids |-> k]
+KidText(k, i) == <<NameCp(k[i]), 48 + i>>
+DocStringValue(k) == Gather(Len(k), LAMBDA i : KidText(k, i))        \* string-value of x: all text descendants
+HasKid(k, n) == \E i \in 1..Len(k) : k[i] = n
+FirstKid(k, n) == CHOOSE i \in 1..Len(k) : k[i] = n /\ \A j \in 1..(i - 1) : k[j] # n
+(* string(node-set) = string-value of the node that is first in document order, "" if empty *)
+ArgVal(k, p) == CASE p = "." -> DocStringValue(k)
+                  [] p = "@k" -> <<107, 48>>
+                  [] OTHER -> IF HasKid(k, p) THEN KidText(k, FirstKid(k, p)) ELSE <<>>
+DocF1 == {"normalize-space", "string-length"}
+DocF2 == {"contains", "starts-with", "substring-before", "substring-after", "concat"}
+IsDoc == "doc" \in Acts /\ cur.t = "doc"
+DocFn1(f, p) == IsDoc /\ cur' = Apply1(f, Str(ArgVal(cur.kids, p)))
+DocFn2(f, p, q) == IsDoc /\ cur' = Apply2(f, Str(ArgVal(cur.kids, p)), ArgVal(cur.kids, q))
+DocTranslate(p, q, r) == IsDoc /\ cur' = Str(TranslateS(ArgVal(cur.kids, p), ArgVal(cur.kids, q), ArgVal(cur.kids, r)))
+DocConcat3(p, q, r) == IsDoc /\ cur' = Str(ArgVal(cur.kids, p) \o ArgVal(cur.kids, q) \o ArgVal(cur.kids, r))
+(* substring(p, string-length(q)): a numeric argument computed from a node-set argument *)
+DocSubstring(p, q) == IsDoc /\ cur' = Str(Substr2(ArgVal(cur.kids, p), Fin(4 * Len(ArgVal(cur.kids, q)))))
+
 Init == \/ cur \in {Str(s) : s \in {x \in StrUpTo(Alpha, MaxLen) : InPart(x)}}
+        \/ "uri" \in Acts /\ 0 \in Part /\ cur \in {Str(s) : s \in StrUpTo(UriAlpha, UriLen)}
+        \/ "doc" \in Acts /\ 0 \in Part /\ cur \in {Doc(k) : k \in StrUpTo(DocNames, DocLen)}
         \/ Sweep /\ cur \in {Str(<<c>>) : c \in {x \in SweepChars : x \in Part}}
         \/ 0 \in Part /\ cur = Empty
         \/ 0 \in Part /\ "cps" \in Acts /\ cur \in {Cps(c) : c \in BadCps \cup GoodCps}
 
-Fn1(f) == "fn1" \in Acts /\ Expandable(cur) /\ IsStrArg(cur) /\ cur' = Apply1(f, cur)
+Fn1(f) == "fn1" \in Acts /\ IsStrArg(cur) /\ (Expandable(cur) \/ (f \in UriF /\ UriExpandable(cur)))
+            /\ cur' = Apply1(f, cur)
 Fn2(f, t) == "fn2" \in Acts /\ Expandable(cur) /\ IsStrArg(cur) /\ cur' = Apply2(f, cur, t)
 Translate(m, r) == "translate" \in Acts /\ Expandable(cur) /\ IsStrArg(cur) /\ cur' = Str(TranslateS(AsStr(cur), m, r))
 Substring2(a) == "substring" \in Acts /\ Expandable(cur) /\ IsStrArg(cur) /\ cur' = Str(Substr2(AsStr(cur), NumVal(a)))
@@ -263,6 +309,11 @@ Next == \/ \E f \in F1 : Fn1(f)
         \/ \E b \in BOOLEAN : ConcatBool(b)
         \/ CpToStr
         \/ \E t \in T2 : Rejoin(t)
+        \/ \E f \in DocF1, p \in ArgPaths : DocFn1(f, p)
+        \/ \E f \in DocF2, p \in ArgPaths, q \in ArgPaths : DocFn2(f, p, q)
+        \/ \E p \in ArgPaths, q \in ArgPaths, r \in ArgPaths : DocTranslate(p, q, r)
+        \/ \E p \in ArgPaths, q \in ArgPaths, r \in ArgPaths : DocConcat3(p, q, r)
+        \/ \E p \in ArgPaths, q \in ArgPaths : DocSubstring(p, q)
 Spec == Init /\ [][Next]_vars
 
 ---------------------------------------------------------------------------
@@ -334,12 +385,39 @@ LawUri ==
   /\ EscapeHtmlUri(EscapeHtmlUri(S)) = EscapeHtmlUri(S)
   /\ \A i \in 1..Len(IriToUri(S)) : IriToUri(S)[i] \in 33..126
   /\ ((\A i \in 1..Len(S) : Unreserved(S[i])) => EncodeForUri(S) = S /\ IriToUri(S) = S /\ EscapeHtmlUri(S) = S)
+(* escaping is per character: splitting the argument anywhere and escaping the parts gives the
+   same result (no look-ahead, so an existing %HH is escaped / kept like any other '%'); '%' is
+   always escaped by encode-for-uri and never by iri-to-uri / escape-html-uri *)
+LawUriSplit ==
+  /\ \A i \in 0..Len(S) :
+       LET l == SubSeq(S, 1, i)
+           r == SubSeq(S, i + 1, Len(S)) IN
+         /\ EncodeForUri(l) \o EncodeForUri(r) = EncodeForUri(S)
+         /\ IriToUri(l) \o IriToUri(r) = IriToUri(S)
+         /\ EscapeHtmlUri(l) \o EscapeHtmlUri(r) = EscapeHtmlUri(S)
+  /\ EncodeForUri(<<37>>) = <<37, 50, 53>> /\ IriToUri(<<37>>) = <<37>> /\ EscapeHtmlUri(<<37>>) = <<37>>
+  /\ Len(SelectSeq(EncodeForUri(S), LAMBDA c : c = 37)) >= Len(SelectSeq(S, LAMBDA c : c = 37))
+  /\ ((\A i \in 1..Len(S) : IriKeep(S[i])) => IriToUri(S) = S /\ EscapeHtmlUri(S) = S)    \* '%2F' stays '%2F'
 LawLex ==     \* the numeric tokens ARE the canonical lexical forms: checked again by the binding
   \A a \in Grid : Len(Lex(NumVal(a))) >= 1
 
 Laws == cur.t = "str" /\ Expandable(cur) =>
           /\ LawCpRoundTrip /\ LawRejoin /\ LawBeforeAfter /\ LawConcatLen /\ LawStartsContains
           /\ LawNormalize /\ LawTranslate /\ LawSubstring /\ LawCompare /\ LawCase /\ LawUri /\ LawLex
+LawsUri == cur.t = "str" /\ UriExpandable(cur) => LawUri /\ LawUriSplit
+(* node-set arguments: the first node in document order decides; x's string-value is all its text *)
+LawDoc == cur.t = "doc" =>
+  LET k == cur.kids IN
+    /\ Len(DocStringValue(k)) = 2 * Len(k)
+    /\ ArgVal(k, ".") = DocStringValue(k)
+    /\ \A n \in DocNames :
+         IF HasKid(k, n)
+         THEN /\ k[FirstKid(k, n)] = n /\ \A j \in 1..(FirstKid(k, n) - 1) : k[j] # n
+              /\ ArgVal(k, n) = <<NameCp(n), 48 + FirstKid(k, n)>>
+              /\ Contains(DocStringValue(k), ArgVal(k, n))
+         ELSE ArgVal(k, n) = <<>>
+    /\ \A p \in ArgPaths, q \in ArgPaths :
+         Apply2("concat", Str(ArgVal(k, p)), ArgVal(k, q)).s = ArgVal(k, p) \o ArgVal(k, q)
 (* a code point sequence converts to a string iff all are XML characters, and then round-trips *)
 LawCps == cur.t = "cps" => LET r == CpToStrV(cur.c) IN
             IF cur.c \in BadCps THEN r = Err("FOCH0001") ELSE r.t = "str" /\ StrToCpV(r) = cur
